@@ -16,7 +16,7 @@ open Zio
 
    replay  allow_rm triples(expected) fs events
         -> rej=<-1|k> run=<0|1> vis=<0|1> stored=<..> load=<..> fs=<canonical fs>
-   request var proc pool never pairs(chunks) upfail pairs(rem) plan sched fs
+   request var proc pool never closerec pairs(chunks) upfail pairs(rem) plan sched fs
         plan := -1 | op eff(1..3) | -2 (never)     sched := k (c)*k   (c = -1: saver thread, j: worker j)
         -> out=<ok|errN> acc=<0|1> fin=<0|1> vis=.. stored=.. load=.. fs=.. tr=<events> *)
 
@@ -120,7 +120,7 @@ let handle toks =
        | _ -> "BAD")
   | "request" :: rest ->
       (match ints rest with
-       | var :: proc :: pool :: never :: r ->
+       | var :: proc :: pool :: never :: closerec :: r ->
            let chunks, r1 = p_pairs r in
            (match r1 with
             | up :: r2 ->
@@ -140,7 +140,7 @@ let handle toks =
                      let f0, _ = p_fs (drop k r5) in
                      let cfg = { r_var = (if var = 0 then Pinned else Fixed);
                                  r_proc = (if proc = 0 then SingleThread else Threaded);
-                                 r_pool = (pool <> 0); r_never = (never <> 0) } in
+                                 r_pool = (pool <> 0); r_never = (never <> 0); r_closerec = (closerec <> 0) } in
                      let inp = { in_chunks = chunks; in_upfail = (if up < 0 then None else Some (nat_of_int up)); in_rem = rem } in
                      let res = request cfg inp pl sched f0 in
                      Printf.sprintf "out=%s acc=%d fin=%d %s tr=%s"
